@@ -64,6 +64,16 @@ func footprint(p *pkgT, fd *ast.FuncDecl) []use {
 	}
 	seen := map[use]bool{}
 	var stack []ast.Node
+	paramObjs := map[*types.Var]bool{}
+	if fd.Type.Params != nil {
+		for _, f := range fd.Type.Params.List {
+			for _, n := range f.Names {
+				if v, ok := p.TypesInfo.Defs[n].(*types.Var); ok {
+					paramObjs[v] = true
+				}
+			}
+		}
+	}
 	isPkgVar := func(id *ast.Ident) (string, bool) {
 		o, ok := p.TypesInfo.Uses[id].(*types.Var)
 		if !ok || o.Pkg() == nil || !strings.HasPrefix(o.Pkg().Path(), modPath) {
@@ -187,10 +197,30 @@ func footprint(p *pkgT, fd *ast.FuncDecl) []use {
 				// skip the Sel part of qualified identifiers (handled as Ident too, fine)
 				classify(name, x)
 			}
+			if o, ok := p.TypesInfo.Uses[x].(*types.Var); ok && paramObjs[o] && len(stack) >= 2 {
+				// a map-typed parameter indexed directly (k[label] = v) or handed to delete
+				if _, isMap := o.Type().Underlying().(*types.Map); isMap {
+					switch par := stack[len(stack)-2].(type) {
+					case *ast.IndexExpr:
+						if par.X == x {
+							classify("param[]", x)
+						}
+					case *ast.CallExpr:
+						if calleeName(p, par) == "delete" && len(par.Args) > 0 && par.Args[0] == x {
+							seen[use{"param[]", "assigned"}] = true
+						}
+					}
+				}
+			}
 			if recvObj != nil && p.TypesInfo.Uses[x] == recvObj && len(stack) >= 2 {
 				switch par := stack[len(stack)-2].(type) {
 				case *ast.SelectorExpr:
 					_ = par
+				case *ast.IndexExpr:
+					// receiver of map / slice type indexed directly: k[label] (= v)
+					if par.X == x {
+						classify("recv[]", x)
+					}
 				case *ast.CallExpr:
 					for k, a := range par.Args {
 						if a == x {
@@ -282,6 +312,29 @@ func genFootprints(w *bytes.Buffer) {
 					rows = append(rows, fmt.Sprintf("  (%s, [%s])", lstr(strings.ReplaceAll(sp, "/", "_")+"."+ts.Name.Name), strings.Join(fs, ", ")))
 				}
 			}
+		}
+	}
+	sort.Strings(rows)
+	w.WriteString(strings.Join(rows, ",\n") + "\n]\n\n")
+	// callees of the random source (C06): every call made by the functions that draw randomness
+	w.WriteString("/-- every call made, in source order, by the functions that draw the library's randomness -/\ndef randomCallees : List (String × List String) := [\n")
+	rows = nil
+	for _, p := range sortedPkgs() {
+		if short(p.PkgPath) != "key" {
+			continue
+		}
+		for _, fd := range funcs(p) {
+			if fd.Recv != nil || !(fd.Name.Name == "GetRandomBytes" || fd.Name.Name == "GetRandomUint32") {
+				continue
+			}
+			var cs []string
+			ast.Inspect(fd.Body, func(n ast.Node) bool {
+				if c, ok := n.(*ast.CallExpr); ok {
+					cs = append(cs, lstr(calleeName(p, c)))
+				}
+				return true
+			})
+			rows = append(rows, fmt.Sprintf("  (%s, [%s])", lstr(qname(p, fd)), strings.Join(cs, ", ")))
 		}
 	}
 	sort.Strings(rows)
